@@ -20,7 +20,11 @@ RULE = ("combi: (d in 1..3 (4 thorough), 1<=lmin<=5, lmax=lmin+0..5 (mostly <=3)
         "integrator default|'old', a permutation of the observation blocks integrate / points / call / interpolate_grid / "
         "points-and-weights, optionally after the same objects have been used for another (lmin,lmax); 3 of 8 boxes are scaled as a "
         "whole or per dimension by s in {2^-30,1e-9,1e-6,1e-3,1e3,2^20} (unusual units); with boundary=False 4 of 7 cases add "
-        "0.25*prod(t(1-t))^-1/2 to the driver, which on the boundary of the box is inf, nan or raises ZeroDivisionError). The integrand is "
+        "0.25*prod(t(1-t))^-1/2 to the driver, which on the boundary of the box is inf, nan or raises ZeroDivisionError; 2 of 5 cases pass the integrand as a Function "
+        "subclass with its own eval_vectorized (documented layout (..., n_points, output_length)) instead of FunctionCustom, and "
+        "these plus a quarter of the others draw the output length k: 1..9 or, half of the time, the number of points of one of "
+        "the case's component grids (3, 5, 7, 9, 15, 21, 25, 27), components taken in the order driver, combination, basis, "
+        "table, basis, nodal, ...). The default integrand is "
         "one vector-valued FunctionCustom = [smooth driver, pseudo-random table on the grid points, 3 nodal unit functions, up to 8 random hierarchical hat functions of the scheme's space (biased "
         "to the deepest admissible levels), one random combination of up to 300 basis functions of the space]. Sizes are "
         "limited by construction through a budget on the total number of component-grid points. Non-trivial = d>=2 and "
@@ -49,6 +53,8 @@ ASSUMPTIONS = [
     "with boundary=False the values of the function ON the boundary of the box are irrelevant by definition of the "
     "zero-boundary interpolant: a function that is inf/nan or raises there must give the same (finite) results as required "
     "for any other function; a nan/inf result where the oracle determines a finite value is a deviation",
+    "a user Function may override eval_vectorized next to eval; the layout the base class itself produces and reshapes to is "
+    "(n_points, output_length) (for stacked input (..., n_points, output_length)), and that is what the check's subclass returns",
     "interpolation points are generated inside the closed box [a,b] (the interpolant is only defined there; scipy's interpn, "
     "which the library delegates to, raises for points outside)",
     "the sparse-grid-interpolant oracle for arbitrary functions is skipped (counted as class sgi-oracle-skipped(size)) when the "
@@ -151,6 +157,20 @@ def hierarchise(basis_all, values_at_nodes):
     return solve_triangular(A, values_at_nodes, lower=True, unit_diagonal=True)
 
 
+PLAN = ["driver", "combination", "basis", "table", "basis", "nodal", "basis", "nodal", "basis", "nodal"]
+
+
+def grid_point_counts(dim, lmin, lmax, boundary):
+    """point counts of the component grids with non-zero coefficient, from the definition"""
+    idx = set(index_set(dim, lmin, lmax))
+    res = set()
+    for l in idx:
+        c = sum((-1) ** sum(z) for z in itertools.product((0, 1), repeat=dim) if tuple(l[j] + z[j] for j in range(dim)) in idx)
+        if c:
+            res.add(int(np.prod([2 ** k + (1 if boundary else -1) for k in l])))
+    return sorted(res)
+
+
 class Model:
     """Everything the oracle knows about one case."""
 
@@ -175,7 +195,16 @@ class Model:
         allfn = oracles.all_basis_functions(dim, lmin, lmax, boundary)
         allfn.sort(key=lambda fn: (sum(k for k, i in fn), fn))
         self.allfn = allfn
-        self.sel = oracles.draw_basis_functions(rng, dim, lmin, lmax, boundary, case.get("nbasis", 8)) if allfn else []
+        # composition of the vector-valued integrand: legacy = [driver, table, 3 nodal, 8 basis functions, combination];
+        # with case["outlen"] = k exactly k components, taken in the order of PLAN (rotated for k < 3 so that a scalar
+        # function is a driver, a combination or a basis function in turn)
+        k_out = case.get("outlen")
+        if k_out:
+            plan = (PLAN + ["basis"] * 30)[:k_out] if k_out >= 3 else (PLAN[case["rng"] % 3:] + PLAN)[:k_out]
+        else:
+            plan = ["driver", "table"] + ["nodal"] * 3 + ["basis"] * case.get("nbasis", 8) + ["combination"]
+        want_sel = plan.count("basis")
+        self.sel = oracles.draw_basis_functions(rng, dim, lmin, lmax, boundary, want_sel) if (allfn and want_sel) else []
         ncomb = min(len(allfn), 300)
         pick = sorted(rng.choice(len(allfn), size=ncomb, replace=False)) if allfn else []
         self.comb = [allfn[i] for i in pick]
@@ -187,16 +216,21 @@ class Model:
         self.driver = lambda x: drv(tuple(x[d] / bs[d] for d in range(dim)))     # the driver sees the box in its original units
         # optional singular term of the driver: 0.25 * prod_d (t_d (1 - t_d))^-1/2, finite inside, inf / nan / raising on the
         # boundary of the box (the classical reason for grids without boundary points)
-        self.singular = case.get("singular") if not boundary else None
-        nn = min(3, len(self.sparse))
+        self.has_driver = "driver" in plan
+        self.singular = case.get("singular") if (not boundary and self.has_driver) else None
+        nn = min(plan.count("nodal"), len(self.sparse))
         self.nodal = [self.sparse_keys[i] for i in sorted(rng.choice(len(self.sparse), size=nn, replace=False))] if nn else []
-        self.n_arb = 2 + len(self.nodal)
         self.n_sel = len(self.sel)
-        self.ncomp = self.n_arb + self.n_sel + 1
-        self.names = ["driver", "table"] + ["nodal"] * len(self.nodal) + ["basis-function"] * self.n_sel + ["combination"]
-        self.scale = np.array([1.0] * (self.n_arb + self.n_sel) + [max(1.0, float(np.sum(np.abs(self.coefs))))])
+        self.has_comb = "combination" in plan
+        # basis functions / nodal functions that the space is too small to supply are replaced by further random tables
+        ntab = plan.count("table") + (want_sel - self.n_sel) + (plan.count("nodal") - nn)
+        self.arb = ([("driver", 0)] if self.has_driver else []) + [("table", j) for j in range(ntab)] + [("nodal", nk) for nk in self.nodal]
+        self.n_arb = len(self.arb)
+        self.ncomp = self.n_arb + self.n_sel + (1 if self.has_comb else 0)
+        self.names = [kind for kind, _ in self.arb] + ["basis-function"] * self.n_sel + ["combination"] * (1 if self.has_comb else 0)
+        self.scale = np.array([1.0] * (self.n_arb + self.n_sel) + [max(1.0, float(np.sum(np.abs(self.coefs))))] * (1 if self.has_comb else 0))
         ints = self.basis_fun.integrals() if (self.sel or self.comb) else np.zeros(0)
-        self.exact_space = np.concatenate([ints[:self.n_sel], [float(np.dot(self.coefs, ints[self.n_sel:]))]])
+        self.exact_space = np.concatenate([ints[:self.n_sel], [float(np.dot(self.coefs, ints[self.n_sel:]))] if self.has_comb else []])
         self.memo = {}
         self.calls = 0
 
@@ -221,7 +255,7 @@ class Model:
             return hit
         self.calls += 1
         key = relkey(xt, self.a, self.b)
-        drv = self.driver(xt)
+        drv = self.driver(xt) if self.has_driver else 0.0
         if self.singular:
             drv = drv + self.singular_term(xt, safe)
             if safe and math.isnan(drv):
@@ -231,12 +265,19 @@ class Model:
         return vals
 
     def _rest(self, xt, key, drv):
-        vals = [drv, table_value(key, self.case["rng"])] + [1.0 if key == nk else 0.0 for nk in self.nodal]
-        if self.sel or self.comb:
+        vals = []
+        for kind, arg in self.arb:
+            if kind == "driver":
+                vals.append(drv)
+            elif kind == "table":
+                vals.append(table_value(key, self.case["rng"] + 7919 * arg))
+            else:
+                vals.append(1.0 if key == arg else 0.0)
+        if self.n_sel or self.has_comb:
             hv = self.basis_fun.at_point(xt)
-            vals += [float(v) for v in hv[:self.n_sel]] + [float(np.dot(self.coefs, hv[self.n_sel:]))]
-        else:
-            vals += [0.0]
+            vals += [float(v) for v in hv[:self.n_sel]]
+            if self.has_comb:
+                vals.append(float(np.dot(self.coefs, hv[self.n_sel:])))
         return vals
 
     def values(self, pts):
@@ -266,7 +307,27 @@ def build(case, model):
     from sparseSpACE.Function import FunctionCustom
     a = np.array(model.a, dtype=float)
     b = np.array(model.b, dtype=float)
-    f = FunctionCustom(model.f, output_dim=model.ncomp)
+    if case.get("fclass") == "own_vectorized":
+        from sparseSpACE.Function import Function
+
+        class VectorisedModel(Function):
+            """a user function with its own eval_vectorized in the documented layout (..., n_points, output_length)"""
+
+            def output_length(self):
+                return model.ncomp
+
+            def eval(self, coordinates):
+                return model.f(coordinates)
+
+            def eval_vectorized(self, coordinates):
+                c = np.asarray(coordinates, dtype=float)
+                flat = c.reshape(-1, c.shape[-1])
+                vals = np.array([model.f(p) for p in flat], dtype=float).reshape(len(flat), model.ncomp)
+                return vals.reshape(c.shape[:-1] + (model.ncomp,))
+
+        f = VectorisedModel()
+    else:
+        f = FunctionCustom(model.f, output_dim=model.ncomp)
     integ = "old" if case.get("integrator") == "old" else None
     grid = TrapezoidalGrid(a=a, b=b, boundary=model.boundary, integrator=integ)
     opcls = Interpolation if case.get("op") == "Interpolation" else Integration
@@ -338,6 +399,11 @@ def check_structure(out, sub, sc, model, info):
 # sub-check combi
 # ----------------------------------------------------------------------------------------------------------------
 BLOCKS = ["integrate", "points", "call", "igrid", "pw"]
+
+
+def _mx(arr):
+    arr = np.asarray(arr)
+    return float(np.max(arr)) if arr.size else 0.0
 
 
 def _first_bad(err, tol):
@@ -434,7 +500,7 @@ def run_combi(case, corrupt=None):
         out.bad(sub + "/integral/result-shape", "result has shape %s, integrand has %d components" % (res.shape, ncomp))
     else:
         err = np.abs(res[na:] - model.exact_space) / (model.vol * scale[na:])
-        info["err_integral"] = float(np.max(err)) / model.cond
+        info["err_integral"] = _mx(err) / model.cond
         badc = [na + int(i) for i in np.argwhere(~(err <= tol)).reshape(-1)]
         if badc:
             c = badc[0]
@@ -444,7 +510,7 @@ def run_combi(case, corrupt=None):
                         len(badc), ncomp - na, c, model.names[c], fn, res[c], model.exact_space[c - na], err[c - na], dim, lmin, lmax, model.boundary, a, b))
         if sgi_int is not None:
             erra = np.abs(res[:na] - sgi_int[:na]) / (model.vol * arb_scale)
-            info["err_integral_arbitrary"] = float(np.max(erra)) / model.cond
+            info["err_integral_arbitrary"] = _mx(erra) / model.cond
             badc = [int(i) for i in np.argwhere(~(erra <= tol)).reshape(-1)]
             if badc:
                 c = badc[0]
@@ -460,7 +526,7 @@ def run_combi(case, corrupt=None):
         vals = model.values([tuple(p) for p in pts]) if len(pts) else np.zeros((0, ncomp))
         q = wts @ vals if len(pts) else np.zeros(ncomp)
         err = np.abs(q[na:] - model.exact_space) / (model.vol * scale[na:])
-        info["err_pw"] = float(np.max(err)) / model.cond
+        info["err_pw"] = _mx(err) / model.cond
         badc = [na + int(i) for i in np.argwhere(~(err <= tol)).reshape(-1)]
         if badc:
             c = badc[0]
@@ -483,7 +549,7 @@ def run_combi(case, corrupt=None):
     else:
         with np.errstate(invalid="ignore"):
             D = np.where((ig == ic) | (np.isnan(ig) & np.isnan(ic)), 0.0, np.abs(ig - ic) / full_scale[None, :])
-        info["err_igrid_vs_call"] = float(np.max(D))
+        info["err_igrid_vs_call"] = _mx(D)
         fb = _first_bad(D, 1e-13)
         if fb:
             out.bad(sub + "/interpolate_grid/differs-from-call", "grid %s: point %s component %d: interpolate_grid %.15g __call__ %.15g" % (
@@ -535,7 +601,7 @@ def run_combi(case, corrupt=None):
                     rows = len(set(int(rr) for rr, cc in np.argwhere(badm)))
                     if np.all(~finite[badm]):
                         cause = "non-finite-value-returned"
-                        if model.singular and cols == [0]:
+                        if model.singular and cols == [0]:      # the driver, when present, is component 0
                             cause += "/only-for-the-function-that-is-non-finite-on-the-box-boundary"
                     else:
                         cause = _cause_names(model, cols)
@@ -580,6 +646,14 @@ def run_combi(case, corrupt=None):
     if model.singular:
         out.cls("singular-on-boundary", "singular-on-boundary=%s" % model.singular)
     _scale_classes(out, case)
+    if case.get("fclass") == "own_vectorized":
+        out.cls("own-eval_vectorized")
+    out.cls("output-length=%s" % (model.ncomp if model.ncomp <= 9 else ">9"))
+    if model.ncomp in grid_point_counts(dim, lmin, lmax, model.boundary):
+        out.cls("output-length==points-of-a-component-grid")
+        if case.get("fclass") == "own_vectorized":
+            out.cls("own-eval_vectorized+output-length==points-of-a-component-grid")
+    info["max_output_length"] = model.ncomp
     info["max_distinct_evaluations"] = model.calls
     info["max_dim"] = dim
     info["max_lmax"] = lmax
@@ -697,7 +771,18 @@ def combi_strategy(tier):
         a, b, cls = _draw_box(draw, dim)
         a, b, bs = _draw_scale(draw, dim, a, b)
         singular = draw(st.sampled_from([None, None, None, "inf", "inf", "nan", "raise"])) if not boundary else None
+        # the integrand: FunctionCustom (generic eval_vectorized) or a Function subclass with its own eval_vectorized; output
+        # length legacy (about 14) or drawn: 1..9, or the number of points of one of the case's component grids
+        fclass = draw(st.sampled_from(["custom", "custom", "custom", "own_vectorized", "own_vectorized"]))
+        outlen = None
+        if fclass == "own_vectorized" or draw(st.integers(0, 3)) == 0:
+            ties = [n for n in grid_point_counts(dim, lmin, lmin + diff, boundary) if n <= 27]
+            if ties and draw(st.booleans()):
+                outlen = draw(st.sampled_from(ties))
+            else:
+                outlen = draw(st.integers(1, 9))
         return dict(dim=dim, lmin=lmin, lmax=lmin + diff, boundary=boundary, a=a, b=b, boxclass=cls, boxscale=bs, singular=singular,
+                    fclass=fclass, outlen=outlen,
                     op=draw(st.sampled_from(["Integration", "Integration", "Interpolation"])),
                     integrator=draw(st.sampled_from(["default"] * 5 + ["old"])),
                     order=draw(st.permutations(list(range(len(BLOCKS))))),
@@ -740,6 +825,13 @@ def combi_fixed():
             res.append(dict(dim=dim, lmin=lmin, lmax=lmax, boundary=False, a=[v * s for v in [-1.0, 0.3, 2.0][:dim]],
                             b=[v * s for v in [2.0, 1.0, 2.5][:dim]], boxclass="generic", boxscale=None if s == 1.0 else [s] * dim, singular=mode,
                             op="Integration", integrator="default", order=[[0, 1, 2, 3, 4], [2, 3, 0, 1, 4]][i % 2], nbasis=8, rng=31 + i))
+    # user functions with their own eval_vectorized whose output length equals the number of points of a component grid
+    for i, (dim, lmin, lmax, boundary, k) in enumerate([(2, 1, 3, False, 3), (1, 2, 2, True, 5), (1, 3, 3, False, 7), (2, 1, 2, True, 9),
+                                                         (2, 2, 3, False, 9), (3, 1, 2, False, 3), (2, 1, 3, True, 15), (2, 1, 3, False, 4),
+                                                         (2, 1, 2, True, 1), (3, 1, 3, False, 9), (2, 2, 4, False, 21)]):
+        res.append(dict(dim=dim, lmin=lmin, lmax=lmax, boundary=boundary, a=[-1.0, 0.3, 2.0][:dim], b=[2.0, 1.0, 2.5][:dim], boxclass="generic",
+                        fclass="own_vectorized", outlen=k, op=["Integration", "Interpolation"][i % 2], integrator="default",
+                        order=[[0, 1, 2, 3, 4], [2, 3, 1, 4, 0]][i % 2], warmup=[None, [1, 2]][i % 3 == 0], nbasis=8, rng=61 + i))
     return res
 
 
@@ -802,7 +894,7 @@ def selftest():
 
 
 SUBS = [
-    Sub("combi", combi_strategy, run_combi, dict(quick=1400, thorough=10000), budget_s=dict(quick=34, thorough=470),
+    Sub("combi", combi_strategy, run_combi, dict(quick=1400, thorough=10000), budget_s=dict(quick=30, thorough=470),
         fixed_cases=combi_fixed),
     Sub("scheme", scheme_strategy, run_scheme, dict(quick=800, thorough=6000), budget_s=dict(quick=8, thorough=50)),
 ]
